@@ -1765,6 +1765,9 @@ class Interp:
 
   def obj_getattr(self, obj, name, frame, default=NotImplemented):
     if name in obj.fields:
+      fa = self.policy.handlers.get(('field_access',))
+      if fa is not None and frame is not None and not frame.spec_mode:
+        fa(self, obj, name, 'read')
       return obj.fields[name]
     if name == '__class__':
       return obj.cls
@@ -1840,6 +1843,9 @@ class Interp:
             return self.call(BoundMethod(obj, fn, klass), [name, v], {}, frame)
           break
       self.path.event('write', f'{obj.cls.__name__}.{name}', (obj, name, v))
+      fa = self.policy.handlers.get(('field_access',))
+      if fa is not None and frame is not None and not frame.spec_mode:
+        fa(self, obj, name, 'write')
       obj.fields[name] = v
       return
     if isinstance(obj, ExcVal):
